@@ -61,3 +61,22 @@ Lemma hb_trips_exactly count :
 Proof.
   rewrite !hb_trips_spec. unfold gen_hb_max_failures. intros H1 H2. apply Z.leb_le in H1. apply Z.leb_gt in H2. lia.
 Qed.
+
+(* C07: a store call that is answered within half a heartbeat interval (to the nanosecond: 2 lat + 1 < H) is answered
+   before the validation read's time-out and before the refresh's time-out: a fast store never makes a leader fail
+   validation or a refresh by timing out *)
+Lemma val_read_tolerates_fast_store H lat : 0 < H -> 2 * lat + 1 < H -> lat < gen_val_read_timeout H.
+Proof.
+  intros Hp Hl. unfold gen_val_read_timeout. cbv zeta.
+  pose proof (Z.quot_div_nonneg H 2 ltac:(lia) ltac:(lia)) as Q. pose proof (Z.div_mod H 2 ltac:(lia)) as D.
+  pose proof (Z.mod_pos_bound H 2 ltac:(lia)) as M.
+  destruct (H ÷ 2 <? 2 * 1000000000) eqn:E; [apply Z.ltb_lt in E|]; lia.
+Qed.
+
+Lemma hb_update_tolerates_fast_store H lat : 0 < H -> 2 * lat + 1 < H -> lat < gen_hb_update_timeout H.
+Proof.
+  intros Hp Hl. unfold gen_hb_update_timeout. cbv zeta.
+  pose proof (Z.quot_div_nonneg H 2 ltac:(lia) ltac:(lia)) as Q. pose proof (Z.div_mod H 2 ltac:(lia)) as D.
+  pose proof (Z.mod_pos_bound H 2 ltac:(lia)) as M.
+  destruct (H ÷ 2 <? 1 * 1000000000) eqn:E; [apply Z.ltb_lt in E|]; lia.
+Qed.
